@@ -237,7 +237,7 @@ func (g *apiGen) action(depth int) string {
 	v := g.v()
 	r := g.c.rng
 	u := func(max uint64) string { return fmt.Sprint(g.edge(max)) }
-	k := r.Intn(27)
+	k := r.Intn(29)
 	if depth <= 0 && k == 20 {
 		k = 0
 	}
@@ -337,13 +337,17 @@ func (g *apiGen) action(depth int) string {
 		if r.Intn(2) == 0 {
 			g.add("$%s.Table(%s)", v, u(0xff))
 		}
-		if r.Intn(2) == 0 {
-			g.add("$%s.ZoneImm(%s)", v, u(0xffff))
-		} else {
-			f := g.regField()
-			rg := g.v()
-			g.add("%s=NewNXRange(0,15)", rg)
-			g.add("$%s.ZoneRange($%s,$%s)", v, f, rg)
+		// the zone is set once, or re-set (the last setter wins: immediate after range, range after immediate)
+		for k := 1 + r.Intn(5)/3; k > 0; k-- {
+			if r.Intn(2) == 0 {
+				g.add("$%s.ZoneImm(%s)", v, u(0xffff))
+			} else {
+				f := g.regField()
+				rg := g.v()
+				s := r.Intn(17)
+				g.add("%s=NewNXRange(%d,%d)", rg, s, s+15)
+				g.add("$%s.ZoneRange($%s,$%s)", v, f, rg)
+			}
 		}
 		for n := r.Intn(4); n > 0; n-- {
 			a := g.action(depth - 1)
@@ -368,6 +372,10 @@ func (g *apiGen) action(depth int) string {
 		g.add("%s=NewNXActionController(%s)", v, u(0xffff))
 		g.add("$%s.MaxLen=%s", v, u(0xffff))
 		g.add("$%s.Reason=%s", v, u(0xff))
+	case 26:
+		g.add("%s=NewActionMplsTtl(%s)", v, u(0xff))
+	case 27:
+		g.add("%s=NewActionNwTtl(%s)", v, u(0xff))
 	default:
 		// learn action with flow-mod specs (documented literal: there is no adder for specs)
 		g.add("%s=%s", v, g.learnTerm())
@@ -412,7 +420,9 @@ func (g *apiGen) learnTerm() string {
 func (g *apiGen) instr() string {
 	v := g.v()
 	r := g.c.rng
-	switch r.Intn(4) {
+	switch r.Intn(5) {
+	case 4:
+		g.add("%s=NewInstrMeter(%d)", v, g.edge(0xffffffff))
 	case 0:
 		g.add("%s=NewInstrGotoTable(%d)", v, g.edge(0xff))
 	case 1:
@@ -500,6 +510,10 @@ func (g *apiGen) packetOut() string {
 // any controller-originated message except bundle-add; returns the variable
 func (g *apiGen) message() string {
 	r := g.c.rng
+	if r.Intn(8) == 0 {
+		// an unrelated earlier message: the greeting sent to a peer that speaks another protocol version
+		g.add("%s=NewHello(%d)", g.v(), []int{1, 2, 3, 5, 6}[r.Intn(5)])
+	}
 	v := g.v()
 	switch r.Intn(14) {
 	case 0:
